@@ -4,6 +4,9 @@
 
 package ring
 
+//@ # The result trackers decide how the read path's tolerances (MaxErrors / MaxUnavailableZones, C02) are consumed: the units
+//@ # that count successes and failures and decide success / failure / whose results are taken also belong to C02.
+
 //@ # ---- default (instance counting) tracker ----------------------------------------------------------------
 //@ func newDefaultResultTracker
 //@   property C11 C02
@@ -21,13 +24,13 @@ package ring
 //@   pure
 //@
 //@ func defaultResultTracker.shouldIncludeResultFrom
-//@   property C11
+//@   property C11 C02
 //@   ensures result
 //@   pure
 //@
 //@ # done: one more success or one more error is counted, nothing else about the counters changes
 //@ func defaultResultTracker.done
-//@   property C11
+//@   property C11 C02
 //@   ensures  ok: err == nil ==> t.numSucceeded == old(t).numSucceeded + 1 && t.numErrors == old(t).numErrors
 //@   ensures  ko: err != nil ==> t.numErrors == old(t).numErrors + 1 && t.numSucceeded == old(t).numSucceeded
 //@   ensures  fixed: t.minSucceeded == old(t).minSucceeded && t.maxErrors == old(t).maxErrors
@@ -77,7 +80,7 @@ package ring
 //@   pure
 //@
 //@ func zoneAwareResultTracker.done
-//@   property C11
+//@   property C11 C02
 //@   requires !isnil(t.waitingByZone) && !isnil(t.failuresByZone)
 //@   ensures  waiting: get(t.waitingByZone, instance.Zone) == get(old(t).waitingByZone, instance.Zone) - 1
 //@   ensures  failure: err != nil ==> get(t.failuresByZone, instance.Zone) == get(old(t).failuresByZone, instance.Zone) + 1
